@@ -185,6 +185,8 @@ class Real(PackedOps, RandOps):
             values = self.scalar_for(m, kv['val'])
         else:
             values = self.array_for(m, split_list(kv['vals']))
+            if 'vdtype' in kv:
+                values = values.astype(DTYPES[kv['vdtype']])       # deliberately mistyped values
         via = kv.get('via', 'update')
         if via != 'update' and kv.get('op', 'replace') == 'replace':
             # __setitem__ forms
